@@ -168,7 +168,10 @@ func c13jsonVal(r *rand.Rand, d int) interface{} {
 	}
 }
 
-func c13buildStream(r *rand.Rand, jsonKind, seqKind bool, maxDocs, maxLen int, c *core.Ctx) (string, []docSpan) {
+// isEmptyObj: the document is an object without members.
+func isEmptyObj(text string) bool { return stripWS(text) == "{}" }
+
+func c13buildStream(r *rand.Rand, jsonKind, seqKind bool, maxDocs, maxLen int, c *core.Ctx, emptyObjs ...bool) (string, []docSpan) {
 	for {
 		n := 1 + r.Intn(maxDocs)
 		var b strings.Builder
@@ -182,6 +185,9 @@ func c13buildStream(r *rand.Rand, jsonKind, seqKind bool, maxDocs, maxLen int, c
 					m[c13jsonStr(r)] = c13jsonVal(r, 2)
 				}
 				jb, _ := json.Marshal(m)
+				if len(emptyObjs) == 1 && emptyObjs[0] && r.Intn(3) == 0 {
+					jb = []byte([]string{"{}", "{ }", "{\n}", "{\t \n }"}[r.Intn(4)])
+				}
 				if r.Intn(3) == 0 {
 					var ib bytes.Buffer
 					json.Indent(&ib, jb, "", " ")
@@ -474,6 +480,33 @@ func c13run(c *core.Ctx, api c13api, stream string, ds []docSpan, wantFp []strin
 		viol("handler-after-false", "the map handler was invoked again after it had returned false", nil)
 		return
 	}
+	// optional deliveries (documents that are objects without members): align the deliveries with the documents
+	// first; the documents that were not delivered are cut out of ds / wantFp / the stream positions below
+	if api.json && api.byteSrc == "" && sc.stopAt < 0 {
+		var ds2 []docSpan
+		var want2 []string
+		skipped := [][2]int{}
+		j := 0
+		for k := range ds {
+			if isEmptyObj(ds[k].text) && (j >= len(dl) || dl[j].fp != wantFp[k]) {
+				skipped = append(skipped, [2]int{ds[k].start, ds[k].end})
+				continue
+			}
+			ds2 = append(ds2, ds[k])
+			want2 = append(want2, wantFp[k])
+			j++
+		}
+		if len(skipped) > 0 {
+			c.Count("stream:empty-object-not-delivered")
+			b := []byte(stream)
+			for _, sp := range skipped {
+				for i := sp[0]; i < sp[1]; i++ {
+					b[i] = ' ' // for the Raw comparison: the skipped document's bytes belong to no delivery
+				}
+			}
+			stream, ds, wantFp, expected = string(b), ds2, want2, len(ds2)
+		}
+	}
 	for k := 0; k < len(dl) && k < expected; k++ {
 		if dl[k].fp != wantFp[k] {
 			viol("map", fmt.Sprintf("document #%d decoded from the reader differs from decoding its bytes directly", k), core.D{"doc": ds[k].text, "observed": dl[k].fp, "expected": wantFp[k]})
@@ -548,7 +581,20 @@ func (c13) Case(c *core.Ctx) {
 	if c.Thorough() && r.Intn(3) == 0 {
 		maxLen, maxDocs = 400, 5
 	}
-	stream, ds := c13buildStream(r, api.json, api.seq, maxDocs, maxLen, c)
+	// an object without members is a document too; the bulk handlers do not hand an empty Map to the map handler
+	// (they take it for "nothing there yet"), so such a document is an OPTIONAL delivery - but every document after
+	// it must still arrive. Only for the plain sources (the Raw bookkeeping of the ByteReader sources is positional).
+	withEmpty := api.json && api.byteSrc == "" && r.Intn(4) == 0
+	stream, ds := c13buildStream(r, api.json, api.seq, maxDocs, maxLen, c, withEmpty)
+	hasEmpty := false
+	for _, d := range ds {
+		if withEmpty && isEmptyObj(d.text) {
+			hasEmpty = true
+		}
+	}
+	if hasEmpty {
+		c.Count("stream:empty-object-document")
+	}
 	deep := false
 	if api.json && r.Intn(20) == 0 {
 		// objects nested to depths around the limits of a small depth counter, followed by an ordinary document
@@ -595,13 +641,16 @@ func (c13) Case(c *core.Ctx) {
 	}
 	c.Distinct("apis", core.HashStr(api.name))
 	stopAt := -1
-	if api.handler && r.Intn(3) == 0 {
+	if api.handler && r.Intn(3) == 0 && !hasEmpty {
 		stopAt = r.Intn(len(ds))
 	}
 	// baselines + complete single-fault sweep
 	for _, eofWith := range []bool{false, true} {
 		c13run(c, api, stream, ds, wantFp, c13sched{eofWith: eofWith, stopAt: stopAt}, c.Verbose)
 		for p := 0; p < len(stream) && !deep; p++ {
+			if hasEmpty && p%7 != c.Index%7 {
+				continue // each skipped empty document costs a poll interval: every seventh position only
+			}
 			c13run(c, api, stream, ds, wantFp, c13sched{zeroAt: map[int]int{p: 1 + p%7}, eofWith: eofWith, stopAt: stopAt}, c.Verbose)
 		}
 	}
@@ -619,7 +668,7 @@ func (c13) Case(c *core.Ctx) {
 			c13run(c, api, stream, ds, wantFp, c13sched{zeroAt: map[int]int{p: n}, eofWith: r.Intn(2) == 0, stopAt: stopAt}, c.Verbose)
 		}
 	}
-	if len(ds) >= 2 && (c.Index/len(c13apiList))%2 == 0 {
+	if len(ds) >= 2 && (c.Index/len(c13apiList))%2 == 0 && !hasEmpty {
 		c13fileResume(c, api, stream, ds, wantFp)
 	}
 	// random multi-fault schedules with chunking
